@@ -87,9 +87,14 @@ def generate(ctx):
         opseed = rng.getrandbits(48)
         group = []
         for inp in inps:
-            c = views_case(inp) if op is None else (op(inp) if op is export_case else op(random.Random(opseed), inp))
+            if op is None:
+                c = ao.run_op(lambda r_, i_: views_case(i_), None, inp)
+            elif op is export_case:
+                c = ao.run_op(lambda r_, i_: export_case(i_), None, inp)
+            else:
+                c = ao.run_op(op, random.Random(opseed), inp)
             c.pop("_result", None)
-            c["input"]["content_id"] = ci
+            c.setdefault("input", {})["content_id"] = ci
             group.append(c)
         # across layouts: the implementation's own results must coincide
         reprs = {str(c["impl_repr"]) for c in group}
